@@ -323,13 +323,33 @@ def rename_locals(fn, mapping):
 
 
 def functions_of(tree, mod):
+    """(key, node) of every function: module level, methods, and - inner ones first - functions nested in them (`outer.<locals>.inner`)"""
+    def nested(prefix, fn):
+        for n in ast.walk(fn):
+            if isinstance(n, (ast.FunctionDef, ast.AsyncFunctionDef)) and n is not fn and _direct_child_def(fn, n):
+                yield from nested('%s.<locals>.%s' % (prefix, n.name), n)
+        yield prefix, fn
     for n in tree.body:
         if isinstance(n, (ast.FunctionDef, ast.AsyncFunctionDef)):
-            yield '%s:%s' % (mod, n.name), n
+            yield from nested('%s:%s' % (mod, n.name), n)
         elif isinstance(n, ast.ClassDef):
             for b in n.body:
                 if isinstance(b, (ast.FunctionDef, ast.AsyncFunctionDef)):
-                    yield '%s:%s.%s' % (mod, n.name, b.name), b
+                    yield from nested('%s:%s.%s' % (mod, n.name, b.name), b)
+
+
+def _direct_child_def(outer, inner):
+    """is `inner` defined directly in the body of `outer` (not inside a further nested def)?"""
+    def rec(n):
+        for c in ast.iter_child_nodes(n):
+            if c is inner:
+                return True
+            if isinstance(c, (ast.FunctionDef, ast.AsyncFunctionDef, ast.Lambda, ast.ClassDef)):
+                continue
+            if rec(c):
+                return True
+        return False
+    return rec(outer)
 
 
 def _header(s):
@@ -485,6 +505,9 @@ def reshape_conditionals(fn, r, stats, key):
     def wanted(x):      # ... and fewer of that one
         return cur[dig(x)] < have[dig(x)]
 
+    def conj(t):
+        return list(t.values) if isinstance(t, ast.BoolOp) and isinstance(t.op, ast.And) else [t]
+
     def swap(old_, new_):
         for o in old_:
             cur[dig(o)] -= 1
@@ -527,6 +550,32 @@ def reshape_conditionals(fn, r, stats, key):
                         changed[0] += 1
                         i = j + 1
                         continue
+            if isinstance(s, ast.If) and surplus(s) and not s.orelse and len(s.body) == 1 and isinstance(s.body[0], ast.Continue) and i + 1 < len(stmts):
+                # `if c: continue` / rest   ==   `if not c: rest`   (and `if A: if B: X` == `if A and B: X`)
+                from .au import negate
+                cand = ast.copy_location(ast.If(test=ast.fix_missing_locations(ast.copy_location(negate(copy.deepcopy(s.test)), s.test)), body=blk(stmts[i + 1:]), orelse=[]), s)
+                while len(cand.body) == 1 and isinstance(cand.body[0], ast.If) and not cand.body[0].orelse:
+                    inner = cand.body[0]
+                    cand = ast.copy_location(ast.If(test=ast.copy_location(ast.BoolOp(op=ast.And(), values=conj(cand.test) + conj(inner.test)), s.test), body=inner.body, orelse=[]), s)
+                ast.fix_missing_locations(cand)
+                if wanted(cand):
+                    swap([s], [cand])
+                    out.append(cand)
+                    changed[0] += 1
+                    i = len(stmts)
+                    continue
+            if isinstance(s, ast.If) and surplus(s) and not s.orelse and len(s.body) == 1 and isinstance(s.body[0], ast.If) and not s.body[0].orelse:
+                cand = s
+                while len(cand.body) == 1 and isinstance(cand.body[0], ast.If) and not cand.body[0].orelse:
+                    inner = cand.body[0]
+                    cand = ast.copy_location(ast.If(test=ast.copy_location(ast.BoolOp(op=ast.And(), values=conj(cand.test) + conj(inner.test)), s.test), body=inner.body, orelse=[]), s)
+                ast.fix_missing_locations(cand)
+                if wanted(cand):
+                    swap([s], [cand])
+                    out.append(cand)
+                    changed[0] += 1
+                    i += 1
+                    continue
             if isinstance(s, ast.If) and surplus(s) and not s.orelse and terminates(s.body) and i + 1 < len(stmts) and terminates(stmts[i + 1:]):
                 # `if not T: B...return` / A...return   ==   `if T: A...return` / B...return   (both arms leave the block)
                 from .au import negate
